@@ -439,10 +439,10 @@ CORPUS = [
     ('D1: cut after the BIT STRING length', 'ber', 'bits', '030205a0', 'K3', ['0302', '05a0'], None),
     ('indefinite CHOICE in two pieces', 'ber', '(tag e c 0 (choice (r null) (r bool)))', 'a0800101ff0000', 'K3',
      ['a080', '0101ff0000'], None),
-    ('short reads on a seekable stream', 'ber', None, '0408616263646566676802010500', 'K3',
-     ['04086162', '63646566676802010500'], 1),
-    ('short reads behind the wrapper', 'ber', None, '0408616263646566676802010500', 'K4',
-     ['04086162', '63646566676802010500'], 1),
+    ('short reads on a seekable stream', 'ber', None, '04086162636465666768020105', 'K3',
+     ['04086162', '636465666768020105'], 1),
+    ('short reads behind the wrapper', 'ber', None, '04086162636465666768020105', 'K4',
+     ['04086162', '636465666768020105'], 1),
 ]
 
 
